@@ -316,6 +316,17 @@ def streams(rng, tier):
         out.append(Case("ws-only", "l.canon", [s]))
     for c in gen_lic.WS:
         out.append(Case("ws-only", "l.canon", [chr(c)])); out.append(Case("ws-each", "l.canon", ["mit" + chr(c) + "or" + chr(c) + chr(c) + "(gd" + chr(c) + ")"]))
+    # arbitrary strings of tokens, separators and several arbitrary code points (non-BMP and lone surrogates included)
+    for _ in range(400 if q else 8000):
+        parts = []
+        for _ in range(rng.choice([1, 2, 3, 5, 8])):
+            k = rng.random()
+            if k < 0.45: parts.append(any_codepoint(rng))
+            elif k < 0.7: parts.append(rng.choice(["MIT", "gd", "or", "AND", "with", "(", ")", "+", "LicenseRef-", "llgpl", "LicenseRef-a"]))
+            else: parts.append(chr(rng.choice(gen_lic.WS)))
+        s = "".join(parts)
+        out.append(Case("arbitrary-codepoints", "l.canon", [s]))
+        if rng.random() < 0.3: out.append(Case("spec-vs-spec", "l.spec", [s]))
     # judgement call D37 (empty LicenseRef idstring): active only once known_findings.txt registers the matcher
     if _registered("match_ref_empty"):
         for s in ["LicenseRef-", "licenseref-+", "MIT OR LICENSEREF-", "(LicenseRef-) AND gd", "LicenseRef- WITH llgpl", "LicenseRef-a", "LicenseRef-.", "MIT"]:
